@@ -74,11 +74,26 @@ Section Ghost.
     | AStore _ _ _ | ARemove _ | AInsert _ | AAlign _ => g
     end.
 
+  (** the lines a suspend closure writes: any lines, empty ones included, EXCEPT an empty FIRST
+      line while the region is empty (last_line_count + zombie_lines_count = 0: the clear of suspend
+      erases nothing and does not move the cursor) and the last draw did not leave the cursor below
+      an erased region (cursor_below = false).  In that state the cursor is wrap-pending at the right
+      edge when the last terminal write was the write_str of a text-only draw - the open finding
+      D28 `empty-line-after-text-only-draw-swallowed`, C03_empty_line_swallowed_refuted - and at
+      column 0 otherwise (nothing written yet, or the last write was a closure's write_line); the
+      model state does not tell the two apart, so both are excluded. *)
+  Definition target_below (t : target) : bool := match t with TTerm tg => tt_below tg | _ => false end.
+  Definition closure_ok (m : mstate) (ws : list text) : bool :=
+    match ws with
+    | [] :: _ => (1 <=? target_n (ms_target m) + ms_zombie_lines m) || target_below (ms_target m)
+    | _ => true
+    end.
+
   (** the proviso of one call.  [ADraw]/[ASuspend]: the Bar rows of the composed frame, plus the
       kept rows above them when they are not erased, fit the terminal height (C02's own proviso
       plus the scroll-back caveat: cursor-up cannot reach rows that have scrolled off the screen);
-      [ASuspend]: foreign code writes non-empty lines (an EMPTY write_line at the right edge only
-      resolves the pending wrap: TermProofs.line_spec_edge_empty);  [AAlign]: Top only;
+      [ASuspend]: [closure_ok] (an EMPTY first write_line at the right edge only resolves the
+      pending wrap: TermProofs.line_spec_edge_empty);  [AAlign]: Top only;
       [AWrite] (suspend through a DETACHED bar while the MultiProgress is on screen writes into
       the live region - foreign code, not indicatif's): nothing is written. *)
   Definition fits_act (now : N) (m : mstate) (a : maction) : Prop :=
@@ -88,7 +103,7 @@ Section Ghost.
         (visual_line_count (bar_lines_of m) W
            + (if ms_has_text m extra then 0 else ms_zombie_lines m) <=? H) = true
     | ASuspend ws =>
-        forallb (fun w => match w with [] => false | _ => true end) ws = true
+        closure_ok m ws = true
         /\ (visual_line_count (bar_lines_of m) W <=? H) = true
     | AAlign a => a = Top
     | AWrite ws => ws = []
